@@ -2,17 +2,20 @@
 C04 — grid-connector power limit, for the strategy `balanced_market`
 (model: Model/StratBalancedMarket.lean, tied to the real code by harness/s_balanced_market.py).
 
-The unchanged code does exceed the limit (known findings
+The pinned code exceeded the limit (known findings
 `C04:strategy_breaks_limit:balanced_market:draw:{vehicles,batteries}`): the stationary-battery block
-charges with the forecast headroom `timesteps[0]["power"]`, which is neither reduced by what an
+charged with the forecast headroom `timesteps[0]["power"]`, which was neither reduced by what an
 earlier battery at the same connector took in this step nor by what the surplus pass gave to
-vehicles.  Both situations are exhibited below as kernel-checked witnesses.  What is proved is the
-part of the allocation that does respect the forecast headroom: the price-ordered planning pass.
+vehicles.  Repaired by fixes/BM2.diff (the model follows); the two former witnesses are regression
+examples below, and `C04_balanced_market_step_gc_with_batteries_within_limit_partial` proves the limit
+with stationary batteries.
 -/
 import SpiceEv.Proofs.StratBalancedMarket
 import SpiceEv.Proofs.StratBalancedMarketLimit
 import SpiceEv.Proofs.StratBalancedMarketBattery
 import SpiceEv.Proofs.StratBalancedMarketLimitStep
+import SpiceEv.Proofs.StratBalancedMarketBatLimit
+import SpiceEv.Proofs.StratBalancedMarketBatLimitStep
 import SpiceEv.Proofs.StratBalancedMarketToy
 set_option linter.unusedSectionVars false
 namespace SpiceEv
@@ -126,28 +129,106 @@ example : BatLaw toyOps.toBatOps ∧ SimLaw toyOps (fun _ _ => True) ∧
     (∀ v ∈ (toyWorld false (1/2)).vehicles, v.v2g = false) :=
   ⟨toyLaw, toySim, by rfl, by decide +kernel, by decide +kernel, by decide +kernel⟩
 
+/-- **`step_gc` with stationary batteries keeps the connector within ±limit (repair BM2; partial).**
+One call of `step_gc` on connector `gcId`, any number of vehicles, stations and stationary batteries
+(minimum charging power `≥ 0`), any prices, events and horizon, battery obeying `BatLaw` and the copy
+law `SimLaw`: if fixed load and generation alone respect the limit (`−cur_max_power ≤ load ≤
+cur_max_power`), every queued event lies in the future, every station is within its maximum and no
+vehicle is V2G-capable, then after the call `−limit ≤ load ≤ limit` and the limit is unchanged —
+vehicle planning, surplus pass, and the battery block: each battery charges with at most what is left at
+the connector right now (cheap steps: the forecast capped by `cur_max_power − current load`, fixes/BM2.diff;
+otherwise the feed-in), and supports the connector with at most `min(load, cur_max_power + load)`.
+Still excluded (hence `_partial`), and exactly this:
+* V2G-capable vehicles (the V2G search books the increment of a compensating charge but forecasts the
+  total; not analysed; no overshoot seen in the survey after BM1);
+* more than one stationary battery in the world **when** the current step is not cheap or is the only
+  cheap step of the forecast (`num_cheap_ts = 0`): then a battery that has supported the connector is put on
+  `discharging_stations` and the next battery's `avail_power` excludes its (negative) load; bounding that
+  needs the load keys of the batteries to be fresh and unique, which is not proved.  With
+  `num_cheap_ts ≥ 1` (second alternative of `hmode`) any number of batteries is covered. -/
+theorem C04_balanced_market_step_gc_with_batteries_within_limit_partial (ops : Ops α B)
+    (law : BatLaw ops.toBatOps) (R : B → B → Prop) (sl : SimLaw ops R) (env : Env α)
+    (w w' : SWorld α B) (gcId : String) (cmds : List (String × α)) (gc : GcS α)
+    (hgc : w.gc? gcId = some gc) (heps : 0 ≤ env.eps) (hM : 0 ≤ gc.curMax)
+    (hlo0 : -gc.curMax ≤ gc.currentLoad) (hbase : gc.currentLoad ≤ gc.curMax)
+    (hfut : ∀ e ∈ env.events, env.now < e.start)
+    (hst : ∀ s ∈ w.stations, -s.maxPower ≤ s.currentPower ∧ s.currentPower ≤ s.maxPower)
+    (hnov2g : ∀ v ∈ w.vehicles, v.v2g = false)
+    (hmin : ∀ b ∈ w.batteries, 0 ≤ b.minChargingPower)
+    (ts0 : List (TS α)) (hts0 : timestepsOf ops env gc = .ok ts0)
+    (hmode : w.batteries.length ≤ 1 ∨ ∃ k, numCheap env.priceThreshold ts0 = .ok (some (k + 1)))
+    (h : stepGc ops env w gcId = .ok (w', cmds)) :
+    ∀ g' ∈ w'.gcs, g'.id = gcId →
+      -gc.curMax ≤ g'.currentLoad ∧ g'.currentLoad ≤ gc.curMax ∧ g'.curMax = gc.curMax :=
+  stepGc_limit_bat ops law R sl env w w' gcId cmds gc hgc heps hM hlo0 hbase hfut hst hnov2g hmin ts0
+    hts0 hmode h
+
+/-- **The whole step with stationary batteries keeps every connector within ±limit (repair BM2; partial).**
+`BalancedMarket.step` on any world with unique connector ids, any number of vehicles, stations and
+stationary batteries (minimum charging power `≥ 0`), no V2G-capable vehicle, all queued events in the
+future, station maxima `≥ 0`: if fixed load and generation alone respect the limit of every connector
+(`−cur_max_power ≤ load ≤ cur_max_power`), then after the step every connector's load is within
+`±` its unchanged limit.  Excluded, exactly: V2G-capable vehicles; and more than one stationary battery
+in the world unless every connector's forecast starts with a cheap step followed by at least one more
+step (`num_cheap_ts ≥ 1`, second alternative of `hmode`) — see
+`C04_balanced_market_step_gc_with_batteries_within_limit_partial` for why. -/
+theorem C04_balanced_market_step_with_batteries_within_limit_partial (ops : Ops α B)
+    (law : BatLaw ops.toBatOps) (R : B → B → Prop) (sl : SimLaw ops R) (env : Env α)
+    (w w' : SWorld α B) (cmds : List (String × α))
+    (heps : 0 ≤ env.eps) (hfut : ∀ e ∈ env.events, env.now < e.start)
+    (hmax : ∀ s ∈ w.stations, 0 ≤ s.maxPower) (hnov2g : ∀ v ∈ w.vehicles, v.v2g = false)
+    (hmin : ∀ b ∈ w.batteries, 0 ≤ b.minChargingPower) (hnd : (w.gcs.map (·.id)).Nodup)
+    (hbase : ∀ g ∈ w.gcs, 0 ≤ g.curMax ∧ -g.curMax ≤ g.currentLoad ∧ g.currentLoad ≤ g.curMax)
+    (hmode : w.batteries.length ≤ 1 ∨ ∀ g ∈ w.gcs, ∀ ts0, timestepsOf ops env g = .ok ts0 →
+      ∃ k, numCheap env.priceThreshold ts0 = .ok (some (k + 1)))
+    (h : BalancedMarket.step ops env w = .ok (w', cmds)) :
+    ∀ g' ∈ w'.gcs, ∃ g ∈ w.gcs, g.id = g'.id ∧ -g.curMax ≤ g'.currentLoad ∧
+      g'.currentLoad ≤ g.curMax ∧ g'.curMax = g.curMax :=
+  step_limit_bat ops law R sl env w w' cmds heps hfut hmax hnov2g hmin hnd hbase hmode h
+
+/-- the battery block alone, for one battery and any price situation: starting with nobody discharging
+and the connector within ±limit, it ends within ±limit -/
+theorem C04_balanced_market_battery_block_within_limit (ops : Ops α B) (law : BatLaw ops.toBatOps)
+    (env : Env α) (M : α) (gid : String) (nCheap : Option Nat) (g g' : GSt α B) (bid : String)
+    (hmin : ∀ b ∈ g.w.batteries, 0 ≤ b.minChargingPower) (hM : 0 ≤ M)
+    (hcm : g.gc.curMax = M) (hid : g.gc.id = gid) (hlo : -M ≤ g.gc.currentLoad)
+    (hhi : g.gc.currentLoad ≤ M) (hdis : g.dis = [])
+    (h : batteryBody ops env nCheap g bid = .ok g') :
+    g'.gc.curMax = M ∧ -M ≤ g'.gc.currentLoad ∧ g'.gc.currentLoad ≤ M := by
+  obtain ⟨a1, _, a3, a4, _, _⟩ := batteryBody_bounds ops law env M gid nCheap g g' bid hmin hM hcm hid hlo
+    hhi hdis h
+  exact ⟨a1, a3, a4⟩
+
+/-- Non-vacuity: the two-battery world of regression 1 below is in the second mode (`num_cheap_ts = 3`). -/
+example :
+    (timestepsOf toyOps ⟨1/100000, 0, 0, hourUs, 4 * hourUs, 0, [], []⟩
+      (⟨"GC", 8, some (.fixed 0), [("load", 4)]⟩ : GcS ℚ)).toOption.map
+      (fun ts => (numCheap (0 : ℚ) ts).toOption) = some (some (some 3)) := by decide +kernel
+
 /-- all four look-ahead steps are cheap (price 0 ≤ threshold 0) -/
 def cheapEnv (steps : Int) : Env ℚ := ⟨1/100000, 0, 0, hourUs, steps * hourUs, 0, [], []⟩
 
-/-- **Witness 1 (two batteries).** Connector limit 8 kW, fixed load 4 kW (within the limit), price
-0 ≤ threshold, two stationary batteries at the connector: each is given the whole forecast headroom,
-`436903/131072 ≈ 3.33` kW each, connector load `699047/65536 ≈ 10.67 > 8`. -/
+/-- **Regression 1 for BM2 (was: witness, two batteries).** Connector limit 8 kW, fixed load 4 kW,
+price 0 ≤ threshold, two stationary batteries at the connector.  Pinned code: each battery was given the
+whole forecast headroom, `≈ 3.33` kW each, load `≈ 10.67 > 8`.  Repaired: the second battery sees what
+the first one left, `436903/131072 ≈ 3.33` and `87385/131072 ≈ 0.67` kW, load exactly 8. -/
 example :
     (BalancedMarket.step toyOps (cheapEnv 4)
       ⟨[⟨"GC", 8, some (.fixed 0), [("load", 4)]⟩], [], [],
        [⟨"B1", "GC", 0, 0⟩, ⟨"B2", "GC", 0, 0⟩]⟩).toOption.map
-      (fun r => r.1.gcs.map (fun g => (g.currentLoad, decide (g.curMax < g.currentLoad)))) =
-      some [(699047/65536, true)] := by decide +kernel
+      (fun r => r.1.gcs.map (fun g => (g.loads, g.currentLoad, decide (g.currentLoad ≤ g.curMax)))) =
+      some [([("load", 4), ("B1", 436903/131072), ("B2", 87385/131072)], 8, true)] := by decide +kernel
 
-/-- **Witness 2 (surplus pass, then one battery).** Limit 2 kW, fixed load 1 kW, generation 3 kW
-(net −2 kW, within the limit), price 0: the surplus pass gives the 2 kW surplus to the vehicle, the
-battery block still sees `timesteps[0].power = 2 − (−2) = 4` kW and charges 4 kW: load 4 > 2. -/
+/-- **Regression 2 for BM2 (was: witness, surplus pass then one battery).** Limit 2 kW, fixed load
+1 kW, generation 3 kW (net −2 kW), price 0: the surplus pass gives the 2 kW surplus to the vehicle.
+Pinned code: the battery block still saw `timesteps[0].power = 2 − (−2) = 4` kW and charged 4 kW (load
+4 > 2).  Repaired: the forecast is capped by the real headroom `2 − 0`, the battery charges 2 kW, load 2. -/
 example :
     (BalancedMarket.step toyOps (cheapEnv 2)
       ⟨[⟨"GC", 2, some (.fixed 0), [("load", 1), ("pv", -3)]⟩], [toyCs], [toyVeh false (8/10)],
        [⟨"B1", "GC", 0, 0⟩]⟩).toOption.map
-      (fun r => (r.2, r.1.gcs.map (fun g => (g.currentLoad, decide (g.curMax < g.currentLoad))))) =
-      some ([("CS1", 2)], [(4, true)]) := by decide +kernel
+      (fun r => (r.2, r.1.gcs.map (fun g => (g.currentLoad, decide (g.currentLoad ≤ g.curMax))))) =
+      some ([("CS1", 2)], [(2, true)]) := by decide +kernel
 
 /-- Non-vacuity of the two theorems: the planning loop of the flat-price world of
 `C05_BalancedMarket` charges `≈ 1.5` kW, within the headroom `20 − 4 = 16`. -/
